@@ -516,6 +516,20 @@ Theorem C18_field_codecs_match_source : field_codec_sources_src = field_codec_so
 Proof. exact field_codec_sources_checked. Qed.
 Print Assumptions C18_field_codecs_match_source.
 
+(* Parse is a function of the bytes: every parser entry point of the scope (from_bytes / parse_* /
+   create, the reassemblers, AdvertisingData.append, UUID.register - 59 definitions) carries exactly
+   the decorators and reads exactly the class- or module-level mutable containers recorded in
+   Model/CodecsFieldSrc.v when the models were written; none is memoised (no functools.lru_cache /
+   cache / cached_property, no decorator other than classmethod / staticmethod), and the only state
+   read is the class dispatch tables and the UUID registry, which are modelled.  The history oracle
+   of the harness (parse, mutate the result, parse again) is the run-time side of the same fact. *)
+Theorem C18_parser_entry_points_match_source : parser_entry_facts_src = parser_entry_facts.
+Proof. exact parser_entry_facts_checked. Qed.
+Print Assumptions C18_parser_entry_points_match_source.
+Theorem C18_parsers_not_memoised : parsers_plain parser_entry_facts_src = true.
+Proof. exact parsers_plain_checked. Qed.
+Print Assumptions C18_parsers_not_memoised.
+
 (* ------------------------------------------------------------------ AVRCP PDUs *)
 (* Gen/C18AvrcpRegistry.v (regenerated every run): the classes of avrcp.Command / Response /
    Event .subclasses whose fields are integers, big-endian enums, length-prefixed UTF-8 strings,
